@@ -15,6 +15,7 @@ EXTENDS Spinner, Json, TLC
 CONSTANTS Bodies,      \* set of with-bodies
           Modes,       \* kinds of output: "ansi", "plain", "quiet"
           ValueChoices,\* indicator value lists
+          Ends,        \* end messages of the (first) run
           Seconds,     \* what follows the run on the same indicator object: <<>> (nothing) or <<[start, end, body]>>
           TickMs,      \* set of clock advances
           MaxTicks, MaxPre
@@ -57,11 +58,14 @@ SecondsH == {<<[start |-> E, end |-> E, body |-> <<>>]>>, <<[start |-> A, end |-
 DefaultValues == {Values}
 TwoValueLists == {Values, <<"1", "2">>}
 Cfg2(md, x, vs) == [mode |-> md, values |-> vs, w |-> 30, interval |-> 100, start |-> x.start, end |-> x.end, body |-> x.body,
-                next |-> <<>>, prev |-> <<A, B, C, E>>]
-Cfg(b, md, nx, vs) == [mode |-> md, values |-> vs, w |-> 30, interval |-> 100, start |-> A, end |-> E, body |-> b,
+                next |-> <<>>, prev |-> <<A, B, C, E, <<>>>>]
+OneEnd == {E}
+TwoEnds == {E, <<>>}
+Cfg(b, md, nx, vs, en) == [mode |-> md, values |-> vs, w |-> 30, interval |-> 100, start |-> A, end |-> en, body |-> b,
                    next |-> IF nx = <<>> THEN <<>> ELSE <<Cfg2(md, nx[1], vs)>>, prev |-> <<>>]
 
-MInit == /\ \E b \in Bodies, md \in Modes, nx \in Seconds, vs \in ValueChoices : InitWith(Cfg(b, md, nx, vs)) /\ cfg0 = Cfg(b, md, nx, vs)
+MInit == /\ \E b \in Bodies, md \in Modes, nx \in Seconds, vs \in ValueChoices, en \in Ends :
+              InitWith(Cfg(b, md, nx, vs, en)) /\ cfg0 = Cfg(b, md, nx, vs, en)
          /\ nticks = 0 /\ hist = <<>> /\ npre = 0 /\ prev = ""
 
 EnT == pcS = "sleep" /\ clock < sdead /\ (nticks < MaxTicks \/ stop)
